@@ -3,6 +3,8 @@ SPEC = {
     "parts": [
         {"name": "migrate", "pkg": "./internal/configmigrate/", "run": "^TestVerifC13$",
          "harness": ["configmigrate/c13_*.go"], "timeout_quick": 600, "timeout_thorough": 3000},
+        {"name": "load", "pkg": "./internal/home/", "run": "^TestVerifC13Load$",
+         "harness": ["home/c13_*.go"], "timeout_quick": 600, "timeout_thorough": 1200},
     ],
 }
 
